@@ -154,6 +154,9 @@ func editFamilies(tier string) []*core.Family {
 		}
 	}
 	build := func(c editCase) (string, string, bool) {
+		if c.e1 == -2 {
+			return "", "", false
+		}
 		s := seeds[c.seed]
 		toks := s.toks
 		label := "seed=" + editSeeds[c.seed].name
@@ -211,21 +214,37 @@ func editFamilies(tier string) []*core.Family {
 	}
 	fams := []*core.Family{mk("b-edit1", uint64(len(singles)), func(i uint64) editCase { return singles[i] }, 0)}
 	if tier == "thorough" {
-		// all ordered pairs of edits: index = seed-major, e1, e2
-		var offs []uint64
-		var tot uint64
-		for _, s := range seeds {
-			offs = append(offs, tot)
-			tot += uint64(len(s.ops)) * uint64(len(s.ops))
-		}
-		get := func(i uint64) editCase {
-			si := len(offs) - 1
-			for si > 0 && offs[si] > i {
-				si--
+		// all ordered pairs of edits with a reduced replacement alphabet (first 6
+		// tokens); index = pair-major, seed-minor so that a budget cap cuts every
+		// seed at the same pair
+		pairOps := make([][]int, len(seeds))
+		maxOps := 0
+		for si, s := range seeds {
+			for k, op := range s.ops {
+				keep := op.kind != "rep"
+				for _, r := range editReplacements[:6] {
+					if op.kind == "rep" && op.tok == r {
+						keep = true
+					}
+				}
+				if keep {
+					pairOps[si] = append(pairOps[si], k)
+				}
 			}
-			i -= offs[si]
-			n := uint64(len(seeds[si].ops))
-			return editCase{si, int(i / n), int(i % n)}
+			if len(pairOps[si]) > maxOps {
+				maxOps = len(pairOps[si])
+			}
+		}
+		ns := uint64(len(seeds))
+		tot := ns * uint64(maxOps) * uint64(maxOps)
+		get := func(i uint64) editCase {
+			si := int(i % ns)
+			k := i / ns
+			a, b := int(k/uint64(maxOps)), int(k%uint64(maxOps))
+			if a >= len(pairOps[si]) || b >= len(pairOps[si]) {
+				return editCase{si, -2, -2} // no such pair for this seed
+			}
+			return editCase{si, pairOps[si][a], pairOps[si][b]}
 		}
 		fams = append(fams, mk("b-edit2", tot, get, 300))
 	}
